@@ -72,6 +72,9 @@ VARIANTS = {
 }
 
 
+SPACE_JOINED = {'#define', '#create_memzone'}       # their arguments are separated by whitespace, not commas
+
+
 def sites(prog, kind):
     out = []
     for i, (label, head, ops, is_instr) in enumerate(prog):
@@ -81,7 +84,7 @@ def sites(prog, kind):
             out += [(i, k) for k, o in enumerate(ops) if isinstance(o, tuple) and o[0] in ('reg', 'ireg', 'xreg')]
         elif kind == 'separator' and head and ops:
             out.append(i)
-        elif kind == 'comma':
+        elif kind == 'comma' and head not in SPACE_JOINED:
             out += [(i, k) for k in range(1, len(ops))]
         elif kind == 'bracket-padding':
             out += [(i, k) for k, o in enumerate(ops) if isinstance(o, tuple) and o[0] in ('ireg', 'ind', 'xreg')]
@@ -127,7 +130,7 @@ def render(prog, choice):
             sep = choice.get(('separator', i), ' ')
             body = parts[0]
             for k in range(1, len(parts)):
-                body += choice.get(('comma', (i, k)), ', ') + parts[k]
+                body += (sep if head in SPACE_JOINED else choice.get(('comma', (i, k)), ', ')) + parts[k]
             text = h + sep + body
         indent = choice.get(('indent', i), '')
         comment = choice.get(('comment', i))
@@ -174,9 +177,13 @@ PREPROC_PROGRAMS = [
      ('nop_x', 'nop', [], True)],
     [('lab', None, [], False), (None, '#ifdef', ['A9'], False), (None, 'nop', [], True), (None, '#endif', [], False),
      (None, '#ifndef', ['A9'], False), (None, 'ldi', [('reg', 'b'), '7'], True), (None, '#endif', [], False), ('nop_x', 'nop', [], True)],
-    [('lab', None, [], False), (None, '#create_memzone', ['zq $60 $6F'], False), (None, '.memzone', ['zq'], False), (None, '.byte', ['1'], False),
+    [('lab', None, [], False), (None, '#create_memzone', ['zq', '$60', '$6F'], False), (None, '.memzone', ['zq'], False), (None, '.byte', ['1'], False),
      (None, '#mute', [], False), (None, '.byte', ['2'], False), (None, '#unmute', [], False), ('nop_x', 'nop', [], True)],
-    [('lab', None, [], False), (None, '#define', ['QV 5'], False), (None, '#if', ['QV'], False), (None, '.byte', ['QV'], False),
+    [('lab', None, [], False), (None, '#define', ['QV', '5'], False), (None, '#if', ['QV'], False), (None, '.byte', ['QV'], False),
+     (None, '#endif', [], False), ('nop_x', 'nop', [], True)],
+    # a symbol whose replacement text is compared as a string: the whitespace in front of the text is not part of it
+    [('lab', None, [], False), (None, '#define', ['QM', 'fast'], False), (None, '#if', ['QM == "fast"'], False), (None, '.byte', ['1'], False),
+     (None, '#elif', ['QM == fast'], False), (None, '.byte', ['2'], False), (None, '#else', [], False), (None, '.byte', ['3'], False),
      (None, '#endif', [], False), ('nop_x', 'nop', [], True)],
 ]
 
